@@ -10,6 +10,10 @@ What is checked while extracting (anything unexpected raises, which sends C05/C1
   * each arithmetic `apply` has the shape  pop [pop]; <assignments / if-else>; append(expr)  and uses only
     + - * / unary-, max/min, math.isnan, math.nan / float("nan"), comparisons, and/or/not, numeric literals.
 
+  * `FormulaEvaluator.apply` ends with  res = eval_stack.pop(); if <test on res>: return Sample(ts, None);
+    return Sample(ts, create(res));  the test (isnan / isinf / isfinite, and/or/not) becomes
+    `Extracted.Formula.resultIsNone : FloatClass -> Bool`.
+
 The translated bodies are `Extracted.Formula.bin<Class> : V -> V -> M V` (first argument = the value pushed
 first = `val1`) and `Extracted.Formula.un<Class> : V -> M V`.
 """
@@ -23,6 +27,7 @@ SOURCES = [
     "src/frequenz/sdk/timeseries/formula_engine/_formula_engine.py",
     "src/frequenz/sdk/timeseries/formula_engine/_formula_steps.py",
     "src/frequenz/sdk/timeseries/formula_engine/_tokenizer.py",
+    "src/frequenz/sdk/timeseries/formula_engine/_formula_evaluator.py",
 ]
 
 OPS = {"max": "max", "min": "min", "consumption": "cons", "production": "prod", "(": "lp",
@@ -308,6 +313,48 @@ def tokenizer_chars(tok_src: str) -> tuple[list[str], list[str], str]:
     return ws, ops, hashes[0]
 
 
+# ---------------------------------------------------------------- the final test of FormulaEvaluator.apply
+def final_test(evaluator_src: str) -> str:
+    tree = ast.parse(evaluator_src)
+    fn = None
+    for n in ast.walk(_find(tree, ast.ClassDef, "FormulaEvaluator")):
+        if isinstance(n, ast.AsyncFunctionDef) and n.name == "apply":
+            fn = n
+    if fn is None:
+        raise Unsupported("FormulaEvaluator.apply not found")
+    body = _strip_doc(fn.body)
+    if len(body) < 3:
+        raise Unsupported("FormulaEvaluator.apply: too short")
+    pop, test, ret = body[-3], body[-2], body[-1]
+    if not (isinstance(pop, ast.Assign) and len(pop.targets) == 1 and isinstance(pop.targets[0], ast.Name)
+            and ast.unparse(pop.value) == "eval_stack.pop()"):
+        raise Unsupported("FormulaEvaluator.apply: expected `res = eval_stack.pop()` before the final test")
+    res = pop.targets[0].id
+    if not (isinstance(test, ast.If) and not test.orelse and len(test.body) == 1 and isinstance(test.body[0], ast.Return)
+            and ast.unparse(test.body[0].value) == "Sample(metric_ts, None)"):
+        raise Unsupported("FormulaEvaluator.apply: expected `if <test>: return Sample(metric_ts, None)`")
+    if not (isinstance(ret, ast.Return) and ast.unparse(ret.value) == f"Sample(metric_ts, self._create_method({res}))"):
+        raise Unsupported("FormulaEvaluator.apply: expected `return Sample(metric_ts, self._create_method(res))`")
+
+    def cond(n: ast.expr) -> str:
+        if isinstance(n, ast.BoolOp):
+            op = " || " if isinstance(n.op, ast.Or) else " && "
+            return "(" + op.join(cond(v) for v in n.values) + ")"
+        if isinstance(n, ast.UnaryOp) and isinstance(n.op, ast.Not):
+            return f"(!{cond(n.operand)})"
+        if isinstance(n, ast.Call) and len(n.args) == 1 and isinstance(n.args[0], ast.Name) and n.args[0].id == res \
+                and not n.keywords:
+            f = ast.unparse(n.func)
+            prim = {"isnan": "isnanC", "math.isnan": "isnanC", "isinf": "isinfC", "math.isinf": "isinfC",
+                    "isfinite": "isfiniteC", "math.isfinite": "isfiniteC"}.get(f)
+            if prim:
+                return f"(PyF.{prim} res)"
+        raise Unsupported(f"final test {ast.unparse(n)!r}")
+
+    return ("/-- The final test of `FormulaEvaluator.apply`: is the result replaced by `None`? -/\n"
+            f"def Extracted.Formula.resultIsNone (res : FloatClass) : Bool := {cond(test.test)}\n")
+
+
 def _lean_char(c: str) -> str:
     return f"(Char.ofNat {ord(c)})"
 
@@ -339,4 +386,5 @@ def generate(repo: pathlib.Path) -> str:
         out.append(translate_step(steps_tree, c, 2))
     for c in UNARY:
         out.append(translate_step(steps_tree, c, 1))
+    out.append(final_test((repo / SOURCES[3]).read_text()))
     return "\n".join(out)
